@@ -24,6 +24,8 @@ pub struct Case {
     pub buffered: Vec<u64>,
     pub script: AScript,
     pub use_stream: bool,
+    /// how many more calls the caller makes after an error (each further error counts; iteration stops at None)
+    pub after_error: usize,
 }
 
 /// What the blocking iterator makes of the first `upto` bytes when the source then fails instead of
@@ -34,10 +36,42 @@ fn reference_prefix(c: &Case, upto: usize) -> RTrace {
     run_reader(&c.spec, &ReaderSetup { input, virtual_tail: 0, cfg: &cfg, script: &RScript::whole(), driver: &Driver::UntilEnd { extra: 0 }, max_steps: 4 * upto + 64, keep_read_log: false })
 }
 
+/// Calls made after an error: none in the sub-batch with an injected read failure (its reference is synthetic).
+fn eff_after(c: &Case) -> usize {
+    if c.script.events.iter().any(|e| matches!(e, AEv::Fail(_))) { 0 } else { c.after_error }
+}
+
 fn reference(c: &Case) -> RTrace {
     let cfg = IterCfg { buffered: c.buffered.clone(), ..Default::default() };
     let n = c.input.len();
-    run_reader(&c.spec, &ReaderSetup { input: c.input.clone(), virtual_tail: 0, cfg: &cfg, script: &RScript::whole(), driver: &Driver::UntilEnd { extra: 0 }, max_steps: 4 * n + 64, keep_read_log: false })
+    let after_error = eff_after(c);
+    if after_error == 0 {
+        return run_reader(&c.spec, &ReaderSetup { input: c.input.clone(), virtual_tail: 0, cfg: &cfg, script: &RScript::whole(), driver: &Driver::UntilEnd { extra: 0 }, max_steps: 4 * n + 64, keep_read_log: false });
+    }
+    // the same call history on the blocking iterator: on after each error, at most `after_error` times, stop at None
+    let ops: Vec<crate::harness::DrvOp> = (0..4 * n + 64 + after_error).map(|_| crate::harness::DrvOp::Next).collect();
+    let mut tr = run_reader(&c.spec, &ReaderSetup { input: c.input.clone(), virtual_tail: 0, cfg: &cfg, script: &RScript::whole(), driver: &Driver::Script(ops), max_steps: 4 * n + 64 + after_error, keep_read_log: false });
+    let mut errs = 0usize;
+    let mut cut = tr.evs.len();
+    for (i, e) in tr.evs.iter().enumerate() {
+        match e {
+            Ev::None | Ev::Panic(_) => {
+                cut = i + 1;
+                break;
+            }
+            Ev::Err(_) => {
+                if errs >= after_error {
+                    cut = i + 1;
+                    break;
+                }
+                errs += 1;
+            }
+            _ => {}
+        }
+    }
+    tr.evs.truncate(cut);
+    tr.step_cap_hit = false;
+    tr
 }
 
 /// Cumulative bytes delivered after each completed read of the schedule (64 KiB transfer buffer).
@@ -194,8 +228,27 @@ impl Check for C20 {
                 }
             }
         }
+        // one run in six: a valid document in which string payloads are made invalid UTF-8. That error consumes its
+        // element, so a caller may step over it; the caller does (up to three times), on both iterators. (Going on
+        // after other errors is not tried here: without a way to lower the async iterator's 4 GB limit, whatever the
+        // parse then takes for a size could be allocated.)
+        let mut after_error = 0usize;
+        if rng.chance(1, 6) {
+            let d = crate::gen::gen_doc(&mut rng, &spec, &doc);
+            let mut e = crate::enc::encode(&d);
+            let strs: Vec<usize> = (0..e.layout.elems.len()).filter(|i| spec.ty(e.layout.elems[*i].id) == Some(crate::spec::Ty::Utf8) && e.layout.elems[*i].size.map_or(false, |s| s >= 1)).collect();
+            if !strs.is_empty() {
+                for _ in 0..rng.range(1, 2) {
+                    let el = e.layout.elems[*rng.pick(&strs)].clone();
+                    e.bytes[el.data_start()] = 0xff;
+                }
+                gi.bytes = e.bytes;
+                gi.class = "invalid-utf8";
+                after_error = rng.range(1, 3);
+            }
+        }
         let n = gi.bytes.len();
-        let buffered = cases::gen_buffered(&mut rng, &spec, 25);
+        let buffered = if after_error > 0 { cases::gen_buffered(&mut rng, &spec, 70) } else { cases::gen_buffered(&mut rng, &spec, 25) };
         let mut events: Vec<AEv> = Vec::new();
         let mut rest = 0usize;
         let pend = *rng.pick(&[0u64, 0, 20, 50]);
@@ -250,7 +303,7 @@ impl Check for C20 {
                 events.insert(at, AEv::Fail(rng.below(4) as u8));
             }
         }
-        Case { spec, input: Arc::new(gi.bytes), buffered, script: AScript { events, rest }, use_stream: rng.chance(1, 3) }
+        Case { spec, input: Arc::new(gi.bytes), buffered, script: AScript { events, rest }, use_stream: rng.chance(1, 3), after_error }
     }
 
     fn exec(&self, c: &Case, st: &mut Stats) -> Result<ExecOk, Fail> {
@@ -262,7 +315,7 @@ impl Check for C20 {
         let n = c.input.len();
         crate::spec::install(&c.spec);
         crate::alloc::arm();
-        let a = run_async(&c.spec, &c.input, &c.buffered, &c.script, c.use_stream, 4 * n + 64);
+        let a = run_async(&c.spec, &c.input, &c.buffered, &c.script, c.use_stream, 4 * n + 64 + c.after_error, eff_after(c));
         let usage = crate::alloc::disarm();
         st.max("max_peak_heap_growth_during_async_run", usage.peak as u64);
         st.max("max_single_allocation_during_async_run", usage.max_request as u64);
@@ -271,6 +324,9 @@ impl Check for C20 {
         st.add("fault_pending_delivered", a.pendings as u64);
         st.add("api_calls", a.evs.len() as u64);
         st.inc(if c.use_stream { "stream_adapter_runs" } else { "next_runs" });
+        if eff_after(c) > 0 && a.evs.iter().filter(|e| matches!(e, Ev::Err(_))).count() >= 1 && a.evs.iter().rposition(|e| matches!(e, Ev::Tag(..))) > a.evs.iter().position(|e| matches!(e, Ev::Err(_))) {
+            st.inc("probe_items_after_stepping_over_an_error");
+        }
         if n > 65536 {
             st.inc("probe_input_larger_than_transfer_buffer");
         }
@@ -350,7 +406,7 @@ impl Check for C20 {
 
     fn fingerprint(&self, c: &Case) -> u64 {
         let mut f = Fp::default();
-        f.bytes(&c.input).u(c.use_stream as u64).u(c.script.rest as u64);
+        f.bytes(&c.input).u(c.use_stream as u64).u(c.script.rest as u64).u(c.after_error as u64);
         for e in &c.script.events {
             f.u(match e {
                 AEv::Ready(k) => *k as u64,
@@ -366,7 +422,7 @@ impl Check for C20 {
     }
 
     fn to_j(&self, c: &Case) -> J {
-        json!({"spec": c.spec.to_j(), "input": bytes_to_j(&c.input), "buffered": c.buffered.iter().map(|b| format!("{:x}", b)).collect::<Vec<_>>(), "script": c.script.to_j(), "use_stream": c.use_stream})
+        json!({"spec": c.spec.to_j(), "input": bytes_to_j(&c.input), "buffered": c.buffered.iter().map(|b| format!("{:x}", b)).collect::<Vec<_>>(), "script": c.script.to_j(), "use_stream": c.use_stream, "after_error": c.after_error})
     }
 
     fn from_j(&self, j: &J) -> Result<Case, String> {
@@ -376,6 +432,7 @@ impl Check for C20 {
             buffered: j.get("buffered").and_then(|v| v.as_array()).ok_or("buffered")?.iter().map(|v| u64::from_str_radix(v.as_str().unwrap_or("0"), 16).unwrap_or(0)).collect(),
             script: AScript::from_j(j.get("script").ok_or("script")?)?,
             use_stream: j.get("use_stream").and_then(|v| v.as_bool()).unwrap_or(false),
+            after_error: j.get("after_error").and_then(|v| v.as_u64()).unwrap_or(0) as usize,
         })
     }
 
@@ -401,6 +458,10 @@ impl Check for C20 {
         if c.use_stream {
             v.push(Case { use_stream: false, ..c.clone() });
         }
+        if c.after_error > 0 {
+            v.push(Case { after_error: 0, ..c.clone() });
+            v.push(Case { after_error: c.after_error - 1, ..c.clone() });
+        }
         if !c.buffered.is_empty() {
             v.push(Case { buffered: vec![], ..c.clone() });
         }
@@ -414,7 +475,7 @@ impl Check for C20 {
     }
 
     fn rule(&self) -> &'static str {
-        "One case = specification + input (valid / truncated / byte-faulted; some larger than the 64 KiB transfer buffer) + buffered-id set + an async delivery schedule (fill-the-buffer reads, fixed small reads down to 1 byte, single split, large head then dribble, random compositions; Pending with immediate or deferred wake before a random subset of reads; in one run of eight one read fails with a hard I/O error) driving TagIteratorAsync::next() or the into_stream() adapter on a single-threaded executor; events (items, offsets for next(), first error, single termination) must equal those of the blocking iterator over the same bytes; after an injected read error: exactly the items completely contained in the bytes delivered before it, then a ReadError carrying that error; lost wake-ups and poll budgets are detected. Non-trivial: at least 3 events and at least 2 completed reads. Distinct: FNV-1a fingerprint of bytes + schedule + buffered set. coverage.distinct_schedule_classes counts distinct sets of (parser phase at which an async read ended, nesting depth, innermost master kind) x adapter x Pending/buffered/error flags (inputs <= 600 bytes)."
+        "One case = specification + input (valid / truncated / byte-faulted; some larger than the 64 KiB transfer buffer) + buffered-id set + an async delivery schedule (fill-the-buffer reads, fixed small reads down to 1 byte, single split, large head then dribble, random compositions; Pending with immediate or deferred wake before a random subset of reads; in one run of eight one read fails with a hard I/O error; in one run of six string payloads are invalid UTF-8 and the caller steps over up to three such errors) driving TagIteratorAsync::next() or the into_stream() adapter on a single-threaded executor; events (items, offsets for next(), first error, single termination) must equal those of the blocking iterator over the same bytes; after an injected read error: exactly the items completely contained in the bytes delivered before it, then a ReadError carrying that error; lost wake-ups and poll budgets are detected. Non-trivial: at least 3 events and at least 2 completed reads. Distinct: FNV-1a fingerprint of bytes + schedule + buffered set. coverage.distinct_schedule_classes counts distinct sets of (parser phase at which an async read ended, nesting depth, innermost master kind) x adapter x Pending/buffered/error flags (inputs <= 600 bytes)."
     }
     fn assumptions(&self) -> Vec<&'static str> {
         vec![
@@ -423,6 +484,6 @@ impl Check for C20 {
         ]
     }
     fn expected_probes(&self) -> Vec<&'static str> {
-        vec!["schedules_never_starved", "schedules_with_a_starved_call", "probe_input_larger_than_transfer_buffer", "probe_one_byte_reads", "fault_pending_delivered", "stream_adapter_runs", "next_runs", "fault_async_read_error_delivered", "probe_items_before_async_read_error"]
+        vec!["schedules_never_starved", "schedules_with_a_starved_call", "probe_input_larger_than_transfer_buffer", "probe_one_byte_reads", "fault_pending_delivered", "stream_adapter_runs", "next_runs", "fault_async_read_error_delivered", "probe_items_before_async_read_error", "probe_items_after_stepping_over_an_error"]
     }
 }
